@@ -14,6 +14,8 @@ if t is None:
     print(err); sys.exit(1)
 PY
 cd lean
-lake build xvdriver XV 2>&1 | grep -v "^✔" | tail -40
+# every Props module (Props/Cxx.lean and Props/Cxx/*.lean), so that the checks find them built
+mods=$(find XV/Props -name '*.lean' | sed 's/\.lean$//; s#/#.#g' | sort)
+lake build xvdriver XV $mods 2>&1 | grep -v "^✔" | tail -40
 test -x .lake/build/bin/xvdriver
 echo "setup ok"
